@@ -7,10 +7,10 @@ moves, an atomic operation is dropped or reordered, a guard changes, the obligat
 namespace Ekit.Linz.Skel
 
 def expected_ConcurrentLinkedQueue_Dequeue : String :=
-  "for(){atomic.LoadPointer(head);atomic.LoadPointer(tail);if(head == tail){return};atomic.LoadPointer(&head.next);atomic.CompareAndSwapPointer(head);if(atomic.CompareAndSwapPointer(&recv.head, headPtr, headNextPtr)){return}}"
+  "for(){atomic.LoadPointer(head);atomic.LoadPointer(tail);if($1 == $2){return};else{atomic.LoadPointer(&$1.next);atomic.CompareAndSwapPointer(head);if(atomic.CompareAndSwapPointer(&recv.head, $3, $4)){return};else{continue}}};return"
 
 def expected_ConcurrentLinkedQueue_Enqueue : String :=
-  "for(){atomic.LoadPointer(tail);atomic.LoadPointer(&tail.next);if(tailNext != nil){continue};atomic.CompareAndSwapPointer(&tail.next);if(atomic.CompareAndSwapPointer(&tail.next, tailNext, newPtr)){atomic.CompareAndSwapPointer(tail);return}}"
+  "for(){atomic.LoadPointer(tail);atomic.LoadPointer(&$1.next);if($2 == nil){atomic.CompareAndSwapPointer(&$1.next);if(atomic.CompareAndSwapPointer(&$1.next, $2, $3)){atomic.CompareAndSwapPointer(tail);return};else{continue}};else{continue}};return"
 
 def expected_ConcurrentList_Add : String :=
   "Lock(lock);defer{Unlock(lock)};AtomicAdd(List);return"
@@ -55,7 +55,7 @@ def expected_ConcurrentPriorityQueue_Peek : String :=
   "RLock(m);defer{RUnlock(m)};Call(pq.Peek);return"
 
 def expected_CopyOnWriteArrayList_Add : String :=
-  "Lock(mutex);defer{Unlock(mutex)};R(vals);R(vals);AtomicAdd(slice);if(err != nil){return};W(vals);return"
+  "Lock(mutex);defer{Unlock(mutex)};R(vals);R(vals);AtomicAdd(slice);if($1 == nil){W(vals);return};else{return}"
 
 def expected_CopyOnWriteArrayList_Append : String :=
   "Lock(mutex);defer{Unlock(mutex)};R(vals);R(vals);W(vals);return"
@@ -67,43 +67,43 @@ def expected_CopyOnWriteArrayList_Cap : String :=
   "Call(snapshot);return"
 
 def expected_CopyOnWriteArrayList_Delete : String :=
-  "Lock(mutex);defer{Unlock(mutex)};R(vals);if(index >= n || index < 0){return};R(vals);R(vals);range{if(i == index){continue}};W(vals);return"
+  "Lock(mutex);defer{Unlock(mutex)};R(vals);if($1 >= $2 || $1 < 0){return};else{R(vals);R(vals);range{if($3 == $1){continue};else{continue}};W(vals);return}"
 
 def expected_CopyOnWriteArrayList_Get : String :=
-  "Call(snapshot);if(index < 0 || index >= l){return};return"
+  "Call(snapshot);if($1 < 0 || $1 >= $2){return};else{return}"
 
 def expected_CopyOnWriteArrayList_Len : String :=
   "Call(snapshot);return"
 
 def expected_CopyOnWriteArrayList_Range : String :=
-  "Call(snapshot);range{if(e != nil){return}};return"
+  "Call(snapshot);range{if($1 == nil){continue};else{return}};return"
 
 def expected_CopyOnWriteArrayList_Set : String :=
-  "Lock(mutex);defer{Unlock(mutex)};R(vals);if(index >= n || index < 0){return};R(vals);W(vals);return"
+  "Lock(mutex);defer{Unlock(mutex)};R(vals);if($1 >= $2 || $1 < 0){return};else{R(vals);W(vals);return}"
 
 def expected_CopyOnWriteArrayList_snapshot : String :=
   "Lock(mutex);defer{Unlock(mutex)};R(vals);return"
 
 def expected_Map_Delete : String :=
-  "MapDelete(m)"
+  "MapDelete(m);return"
 
 def expected_Map_Load : String :=
-  "AtomicLoad(m);if(anyVal != nil){};return"
+  "AtomicLoad(m);if($1 == nil){return};else{return}"
 
 def expected_Map_LoadAndDelete : String :=
-  "MapLoadAndDelete(m);if(anyVal != nil){};return"
+  "MapLoadAndDelete(m);if($1 == nil){return};else{return}"
 
 def expected_Map_LoadOrStore : String :=
-  "MapLoadOrStore(m);if(anyVal != nil){};return"
+  "MapLoadOrStore(m);if($1 == nil){return};else{return}"
 
 def expected_Map_LoadOrStoreFunc : String :=
-  "Call(Load);if(ok){return};if(err != nil){return};Call(LoadOrStore);return"
+  "Call(Load);if($1){return};else{if($2 == nil){Call(LoadOrStore);return};else{return}}"
 
 def expected_Map_Range : String :=
-  "func{if(value != nil){};if(key != nil){};return};MapRange(m)"
+  "func{if($1 == nil){};else{};if($2 == nil){return};else{return}};MapRange(m);return"
 
 def expected_Map_Store : String :=
-  "AtomicStore(m)"
+  "AtomicStore(m);return"
 
 def expected_NewConcurrentLinkedQueue : String :=
   "return"
